@@ -136,14 +136,16 @@ class NdModel:
         if not copy and interp.truth(same):
             return o
         # numpy: astype(order='K') keeps the layout
+        lay = h.get("ndarray", "layout", o.ref)
         return h.new_array(shape=h.get("ndarray", "shape", o.ref), dtype=to_z3(dtype), base=0,
-                           layout=KLAYOUT(h.get("ndarray", "layout", o.ref)), val=h.get("ndarray", "val", o.ref))
+                           layout=z3.If(COMPACT(lay), lay, KLAYOUT(lay)), val=h.get("ndarray", "val", o.ref))
 
     def copy(self, interp, o, order="K"):
         h = self.h
         lay = h.get("ndarray", "layout", o.ref)
         shp = h.get("ndarray", "shape", o.ref)
-        newlay = CLAYOUT(shp) if order == "C" else KLAYOUT(lay)
+        # order='K' reproduces the layout of a compact array exactly (axiom); order='C' gives the C layout of the shape
+        newlay = CLAYOUT(shp) if order == "C" else z3.If(COMPACT(lay), lay, KLAYOUT(lay))
         return h.new_array(shape=shp, dtype=h.get("ndarray", "dtype", o.ref), base=0, layout=newlay, val=h.get("ndarray", "val", o.ref))
 
     def binop(self, interp, op, a, b, inplace):
@@ -227,6 +229,11 @@ class TensorModel:
             return raw
         if name == "_ops":
             return _OpsView(self.h, o)
+        if name == "_view_children":
+            # only its truthiness is modelled: an unconstrained boolean per tensor (declared on demand)
+            if ("Tensor", "_view_children_nonempty") not in interp.ctx.heap:
+                interp.ctx.field("Tensor", "_view_children_nonempty", B)
+            return _OpsView(self.h, o, "_view_children_nonempty")
         raise Unsupported(f"Tensor attribute .{name} has no heap field")
 
     def setattr(self, interp, o: SRef, name, v):
@@ -250,11 +257,11 @@ class TensorModel:
 class _OpsView:
     """`t._ops` reduced to what backward needs: its truthiness."""
 
-    def __init__(self, heap, t):
-        self.h, self.t = heap, t
+    def __init__(self, heap, t, fld="_ops_nonempty"):
+        self.h, self.t, self.fld = heap, t, fld
 
     def __sym_truth__(self, interp):
-        return self.h.get("Tensor", "_ops_nonempty", self.t.ref)
+        return self.h.get("Tensor", self.fld, self.t.ref)
 
 
 def graph_np(heap: Heap):
